@@ -59,6 +59,13 @@ def run():
         good = 'Pure' in r['violated'] or 'LayoutFree' in r['violated']
         E.log('selftest (d) append-in-place preimage in SliceMem.tla: %s' % ('Pure/LayoutFree violated' if good else 'NOT DETECTED'))
         ok &= good
+        # (e) the Apalache obligations are not vacuous: a false invariant is refuted from the same IndInit
+        work = os.path.join(tmp, 'w5'); os.makedirs(work)
+        r = subprocess.run(['timeout', '300', 'apalache-mc', 'check', '--init=IndInit', '--next=Next', '--inv=BogusDeleteFinal', '--length=1', '--out-dir=' + work, '--run-dir=' + work,
+                            os.path.join(E.SPEC, 'OutputOracleInd.tla')], cwd=work, stdout=subprocess.PIPE, stderr=subprocess.STDOUT, text=True)
+        good = 'Checker has found an error' in r.stdout
+        E.log('selftest (e) false action invariant under Apalache: %s' % ('refuted' if good else 'NOT DETECTED'))
+        ok &= good
     finally:
         shutil.rmtree(tmp, ignore_errors=True)
     E.log('SELFTEST %s' % ('PASS' if ok else 'FAIL'))
